@@ -88,6 +88,39 @@ func genC14(tier string, run int, r *simcore.Rand) *harness.Plan {
 		}
 	}
 	cfg := Config{Root: root, Blobs: specs, Clients: nclients}
+	if hasType(root, "blobpacked") && r.Bool(0.6) {
+		// One client uploads a file at the packing threshold (chunks first,
+		// file blob last: its receive packs) while the others read the
+		// file's blobs: an acknowledged chunk must stay visible while it
+		// moves from the loose store into a zip.
+		f := c04File{Name: "c14.dat", Size: (512 << 10) + r.Intn(4000), Chunk: []int{64 << 10, 100000, 256 << 10}[r.Intn(3)], Nested: r.Bool(0.3), Salt: r.Uint64(), SameAs: -1}
+		cfg.Files = []c04File{f}
+		full := poolOf(&cfg)
+		var up []c14Op
+		for i := len(specs); i < len(full); i++ {
+			up = append(up, c14Op{Op: sim.Op{Kind: "recv", B: []int{i}}, C: 0})
+		}
+		var reads []c14Op
+		for c := 1; c < nclients; c++ {
+			for k := r.Range(2, 5); k > 0; k-- {
+				bi := len(specs) + r.Intn(len(full)-len(specs))
+				op := sim.Op{Kind: []string{"fetch", "stat", "stat", "sub"}[r.Intn(4)], B: []int{bi}}
+				if op.Kind == "sub" {
+					op.Off, op.Len = int64(r.Intn(100)), int64(1+r.Intn(200))
+				}
+				reads = append(reads, c14Op{Op: op, C: c})
+			}
+		}
+		// the uploader's receives come first among its own operations; the
+		// readers' extra reads are appended to theirs
+		var rest []c14Op
+		for _, op := range ops {
+			if op.C != 0 {
+				rest = append(rest, op)
+			}
+		}
+		ops = append(append(up, rest...), reads...)
+	}
 	p := &harness.Plan{Mode: "concurrent", Config: harness.MustJSON(cfg), Bubble: true}
 	p.LockYield = []int{0, 30, 200, 1000}[r.Intn(4)]
 	p.Sticky = []int{0, 0, 500, 850}[r.Intn(4)]
@@ -488,6 +521,22 @@ func execC14(rc *harness.RunCtx, p *harness.Plan, cfg *Config) *harness.Outcome 
 				class := "enum-missed-stable-blob"
 				if len(removes[k]) > 0 {
 					class += "+remove"
+				}
+				if len(cfg.Files) > 0 {
+					// a blob of the packable file, while the receive of its
+					// file blob (which packs) overlaps the enumeration
+					isFileBlob := false
+					for bi := len(cfg.Blobs); bi < len(s.pool); bi++ {
+						if refOf(bi) == k {
+							isFileBlob = true
+						}
+					}
+					for _, rv := range recvs[refOf(len(s.pool)-1)] {
+						if isFileBlob && rv.call < e.res.Return && rv.ret > e.res.Call {
+							class += "+pack-overlaps"
+							break
+						}
+					}
 				}
 				return fail(e.i, class, fmt.Sprintf("%s [%d,%d] did not list %s, which was present from before it began until after it returned", e.op.String(), e.res.Call, e.res.Return, k))
 			}
